@@ -60,7 +60,10 @@ func (h *TwoPartyHandler) Listen() <-chan *Message {
 }
 
 func (h *TwoPartyHandler) Stop() {
-	if h.err != nil || h.result != nil {
+	h.mtx.Lock()
+	defer h.mtx.Unlock()
+	// only a running session can be stopped: once it has ended the channel is already closed
+	if h.err == nil && h.result == nil {
 		h.abort(errors.New("aborted by user"))
 	}
 }
